@@ -108,6 +108,33 @@ def case_convention(ctx, nf):
     ctx.check(bad is not None, "D-CONV.unknown", info="unknown convention is rejected")
 
 
+def case_cardinal(ctx, method):
+    """float64 witness on the real code (concrete run only): moments pointing exactly along the four axes (a1 or b1
+    exactly zero) give going-to directions 0/90/180/270 and coming-from directions 270/180/90/0 - the ties of the
+    modulo, where a result of exactly 0 must not come back as 360. Exact-arithmetic encodings cannot see these ties:
+    180/pi*atan2(1/2, 0) is 90 only after float64 rounding."""
+    if ctx.mode == "sym":
+        ctx.check(True, "D-CARD.float", info="executed in the concrete float64 run only")
+        return
+    from ocean_science_utilities.wavephysics import windestimate as W
+    nf = 24
+    f = np.linspace(0.05, 1.2, nf)
+    e = np.tile(3e-4 * f ** -4.0, (4, 1)) * np.array([[1.0], [0.5], [2.0], [1.5]])
+    e[:, :6] *= np.linspace(0.1, 0.9, 6)
+    card = [(0.5, 0.0), (0.0, 0.5), (-0.5, 0.0), (0.0, -0.5)]
+    a1 = np.array([[c[0]] * nf for c in card])
+    b1 = np.array([[c[1]] * nf for c in card])
+    s = C.make_1d(ctx, f, e, "time4", a1=a1, b1=b1, a2=a1 * 0, b2=b1 * 0)
+    kw = dict(number_of_bins=4) if method == "mean" else {}
+    d1 = np.asarray(W.estimate_u10_from_spectrum(s, method, **kw)["direction"].values, dtype=float)
+    d2 = np.asarray(W.estimate_u10_from_spectrum(s, method, direction_convention="coming_from_clockwise_north",
+                                                 **kw)["direction"].values, dtype=float)
+    ok1 = bool(np.all(d1 == np.array([0.0, 90.0, 180.0, 270.0])))
+    ok2 = bool(np.all(d2 == np.array([270.0, 180.0, 90.0, 0.0])))
+    ctx.check(ok1 and ok2, "D-CARD.float", info=dict(going=d1.tolist(), coming=d2.tolist(),
+                                                     what="cardinal directions exact and inside [0,360)"))
+
+
 def case_scaling_and_2d(ctx, nf, nd):
     """u*(c E) == c u*(E); a 2D spectrum gives the same answer as its 1D reduction"""
     W = _shim(ctx)
@@ -166,7 +193,7 @@ def case_mean_f4(ctx, nf, nbins, perturb):
     ctx.check(ctx.implies(ctx.Not(ctx.isnan(dr)), ctx.And(ctx.le(0, dr), ctx.lt(dr, 360))), "D-MEAN.dir.range")
 
 
-def case_mean_range(ctx, nf, nbins, j0, fmax_idx=None):
+def case_mean_range(ctx, nf, nbins, j0, fmax_idx=None, generic=False):
     """mean method: bins [j0, j0+nbins) follow c f^-4 exactly, every other bin is raised by its own positive amount:
     the minimum-variance window is that range and the equilibrium level is exactly c"""
     W = _shim(ctx)
@@ -187,6 +214,20 @@ def case_mean_range(ctx, nf, nbins, j0, fmax_idx=None):
         e[0, i] = v
     a1 = ctx.reals("a1", (1, nf))
     b1 = ctx.reals("b1", (1, nf))
+    if generic:
+        # moments in general position: the direction of the window mean differs from the direction of every single
+        # bin and of every other window (so that a counterexample of the argument claim also shows in the angle)
+        Aw = sum(a1[0, j0 + k] for k in range(nbins))
+        Bw = sum(b1[0, j0 + k] for k in range(nbins))
+        ctx.assume(ctx.lt(0, Aw))
+        for j in range(nf):
+            ctx.assume(ctx.lt(0, a1[0, j]))
+            ctx.assume(ctx.Not(ctx.eq(Bw * a1[0, j], Aw * b1[0, j])))
+        for st in range(nf - nbins + 1):
+            if st != j0:
+                A2 = sum(a1[0, st + k] for k in range(nbins))
+                B2 = sum(b1[0, st + k] for k in range(nbins))
+                ctx.assume(ctx.Not(ctx.eq(Bw * A2, Aw * B2)))
     s = C.make_1d(ctx, f, e, "time1", a1=a1, b1=b1, a2=a1 * 0, b2=b1 * 0)
     im = nf - 1 if fmax_idx is None else fmax_idx      # the range must end below the bin nearest fmax
     assert j0 + nbins <= im
@@ -196,6 +237,21 @@ def case_mean_range(ctx, nf, nbins, j0, fmax_idx=None):
     ctx.reach("D-MEAN.range")
     ctx.check(ctx.close(us, _ustar_ref(ctx, c, 2.5, 0.012)), "D-MEAN.range",
               info="a c f^-4 range inside an otherwise different spectrum: level is exactly c")
+    # direction: atan2 of the moments averaged over the SELECTED window [j0, j0+nbins)
+    dr = C.values(out["direction"])[0]
+    A = sum(a1[0, j0 + k] for k in range(nbins)) / nbins
+    B = sum(b1[0, j0 + k] for k in range(nbins)) / nbins
+    if ctx.mode == "sym":
+        Y, X, R = ctx.atan2_log[-1]
+        # (close, not eq: the code multiplies by the double 1/nbins)
+        ctx.check(ctx.And(ctx.close(ctx.value(Y), B), ctx.close(ctx.value(X), A)), "D-MEAN.dir",
+                  info=dict(window=[j0, j0 + nbins], what="atan2 is taken of the window means of b1 and a1"))
+        ang = R * (180.0 / np.pi)
+    else:
+        ang = ctx.atan2(B, A) * (180.0 / np.pi)
+    ctx.check(ctx.implies(ctx.Not(ctx.isnan(dr)), ctx.is_multiple(dr - ang, 360)), "D-MEAN.dir",
+              info="direction == atan2(mean b1, mean a1) in degrees (mod 360)")
+    ctx.check(ctx.implies(ctx.Not(ctx.isnan(dr)), ctx.And(ctx.le(0, dr), ctx.lt(dr, 360))), "D-MEAN.dir.range")
 
 
 def cases(tier):
@@ -216,6 +272,8 @@ def cases(tier):
     add("case_peak", "peak_nf3_comingfrom", nf=3, layout="scalar", convention="coming_from_clockwise_north")
     add("case_peak", "peak_nf4_nan", nf=4, layout="scalar", nanmask=[0, 1, 0, 0], opts=dict(weight=30))
     add("case_convention", "convention_nf3", nf=3, opts=dict(weight=30))
+    add("case_cardinal", "cardinal_peak_float", method="peak", opts=dict(concrete_float=True, label="D-CARD.float"))
+    add("case_cardinal", "cardinal_mean_float", method="mean", opts=dict(concrete_float=True, label="D-CARD.float"))
     add("case_scaling_and_2d", "scale2d_nf3_nd4", nf=3, nd=4, opts=dict(weight=30))
     for nf, nb, pt in ((5, 2, None), (5, 2, 0), (6, 3, None), (6, 3, 5)) + (() if q else ((8, 4, None), (8, 3, 2))):
         add("case_mean_f4", f"mean_nf{nf}_b{nb}_p{pt}", nf=nf, nbins=nb, perturb=pt, opts=dict(weight=40))
@@ -225,4 +283,6 @@ def cases(tier):
     for nf, nb, j0, im in ((5, 2, 2, None), (6, 2, 2, 4), (6, 3, 2, None)) + (() if q else ((7, 3, 2, 5), (8, 4, 3, None))):
         add("case_mean_range", f"meanrange_last_nf{nf}_b{nb}_j{j0}_fmax{im}", nf=nf, nbins=nb, j0=j0, fmax_idx=im,
             opts=dict(weight=60))
+        add("case_mean_range", f"meanrange_last_generic_nf{nf}_b{nb}_j{j0}_fmax{im}", nf=nf, nbins=nb, j0=j0,
+            fmax_idx=im, generic=True, opts=dict(weight=60))
     return cs
